@@ -577,6 +577,39 @@ func c10Support(cs c10Case) map[string]bool {
 			}
 		}
 		rec(0)
+	case "mutate":
+		// rate >= 1: every cell that is not a gap or special character takes "a random nucleotide or amino
+		// acid uniformly": every letter of the alphabet, independently per cell (small shapes only)
+		if cs.F1 < 1 || n*L > 2 {
+			return nil
+		}
+		letters := "ACGT"
+		if cs.Alpha == align.AMINOACIDS {
+			letters = "ARNDCQEGHILKMFPSTWYV"
+		}
+		cells := []string{""}
+		for i := 0; i < n; i++ {
+			for j := 0; j < L; j++ {
+				var next []string
+				for _, pre := range cells {
+					if ch := in[i].Seq[j]; ch == '-' || ch == '.' || ch == '*' {
+						next = append(next, pre+string(ch))
+						continue
+					}
+					for k := 0; k < len(letters); k++ {
+						next = append(next, pre+letters[k:k+1])
+					}
+				}
+				cells = next
+			}
+		}
+		for _, flat := range cells {
+			r := in.clone()
+			for i := range r {
+				r[i].Seq = flat[i*L : (i+1)*L]
+			}
+			adm[r.String()] = true
+		}
 	default:
 		return nil
 	}
@@ -915,6 +948,13 @@ func c10Cases(tier string) []c10Case {
 			add(c10Case{Op: "swap", Seqs: c10Coded(sh[0], sh[1], nt), Alpha: nt, F1: 1, F2: pos})
 		}
 	}
+	// support of the substituted letter (rate 1: every cell is redrawn): 1x1, 1x2, 2x1 in both alphabets
+	for _, s := range [][]string{{"L"}, {"LK"}, {"L", "K"}, {"L-"}, {"*E"}} {
+		add(c10Case{Op: "mutate", Seqs: s, Alpha: align.AMINOACIDS, F1: 1})
+	}
+	for _, s := range [][]string{{"A"}, {"AC"}, {"A", "C"}, {"A-"}} {
+		add(c10Case{Op: "mutate", Seqs: s, Alpha: nt, F1: 1})
+	}
 	add(c10Case{Op: "mutate", Seqs: []string{"L-"}, Alpha: align.AMINOACIDS, F1: 0.5})
 	add(c10Case{Op: "mutate", Seqs: []string{"L.", "*E"}, Alpha: align.AMINOACIDS, F1: 1})
 	// seed replay in pass-through mode
@@ -946,7 +986,7 @@ func init() {
 		ID:    "C10",
 		Level: "model_checking",
 		Rule: "for each randomised operation (ShuffleSequences, ShuffleSites, Swap, SimulateRogue, BuildBootstrap (also block-wise followed by Concat, as build seqboot --partition does), Sample, SampleSeqBag, RandSubAlign, Recombine, AddGaps, Mutate, Rarefy) on position-coded alignments of every shape n<=3 x L<=3 (4x4 for the support-checked operations in thorough; Swap of two pairs of rows on 4x3, 4x4, 5x3) and on all alignments n<=2,L<=2 over {A,C,-} for the content-sensitive ones, with all listed parameter values: EVERY sequence of RNG answers (rand.Intn: all n values; rand.Perm: all n! orders; rand.Float64: representatives on both sides of and at every threshold the code compares with) is executed; states/transitions are nodes/edges of the RNG choice trees; " +
-			"per leaf the operation's invariant, per tree reached-outcome set == admissible set where the statement pins the support down (row shuffle, bootstrap, sampling, site sampling, full site shuffle); seed replay with the real stream for seeds 0,1,42 twice and under map-order choices, on 3x3 and (for operations reporting name lists or pairing rows) 4x4 alignments. distinct_nontrivial = distinct (case, answer sequence) leaves whose invariant was checked.",
+			"per leaf the operation's invariant, per tree reached-outcome set == admissible set where the statement pins the support down (row shuffle, bootstrap, sampling, site sampling, full site shuffle, substituted letters at rate 1); seed replay with the real stream for seeds 0,1,42 twice and under map-order choices, on 3x3 and (for operations reporting name lists or pairing rows) 4x4 alignments. distinct_nontrivial = distinct (case, answer sequence) leaves whose invariant was checked.",
 		Assumptions: []string{
 			"rand.Intn(n) can return every value of [0,n) and rand.Perm every permutation (positive probability is decided as reachability over RNG answers)",
 			"rand.Float64 answers are representatives: below, at and above each comparison threshold of the operation",
